@@ -35,7 +35,7 @@ DTS = [0.1, 0.37]
 MIN_INFLUENCE = 0.05
 
 FM_EPSREL = [1e-6, 1e-8]
-FM_CTOL = 20.0               # tolerance = FM_CTOL * epsrel * n_steps  (truncation-limited comparison, DESIGN 2.7)
+FM_CTOL = 40.0               # tolerance = FM_CTOL * epsrel * n_steps  (truncation-limited comparison, DESIGN 2.7)
 FM_CONV = 1e-11              # the explicit simulation must be converged in the Fock cut to this
 
 
